@@ -10,7 +10,7 @@ agent, pid, i = sys.argv[1:4]
 prop = pid[:3]
 ids = sys.argv[4].split(',') if len(sys.argv) > 4 and not sys.argv[4].startswith('--') else [prop]
 run_tests = '--tests' in sys.argv
-MUT = '/tmp/mut'
+MUT = os.environ.get('MUTDIR', '/tmp/mut')
 head = subprocess.check_output(['git', '-C', '/repo', 'rev-parse', 'HEAD']).decode().strip()
 if not os.path.exists(MUT):
     subprocess.check_call(['git', '-C', '/repo', 'worktree', 'add', '-q', '--detach', MUT, 'HEAD'])
